@@ -531,6 +531,7 @@ package internals
 //@   unfold built_over_a_struct: s != nil && rv_kind(s.value) == 25
 //@   pure
 //@   ensures[C14] unreadable_is_absent: !rv_caniface(rv_field(s.value, key)) ==> result == nil
+//@   ensures[C04,C14] readable_field_is_its_value: rv_caniface(rv_field(s.value, key)) && (rv_iface(rv_field(s.value, key)) != nil || rv_canaddr(rv_field(s.value, key))) ==> result == rv_iface(rv_field(s.value, key))
 
 // Named map types (type H map[string]any) are converted to the unnamed type before the assertion; never a panic.
 //@ func mapProviderOf(x, val)
